@@ -1,10 +1,29 @@
 """C11 — incremental backup with a parent equals a full backup (reuse decision kernel)."""
 from tools.krun import Harness
+from tools.extract import Unit, Rw
 
 PROPERTY = "C11"
-LEVEL = "other"   # every check of this property is a bounded stand-in
-UNITS = []
-PRELUDE = []
+PA = "crates/core/src/archiver/parent.rs"
+PRELUDE = ["../common/base.rs", "prelude.rs"]
+UNITS = [
+    # the body of the closure that `is_parent` hands to Iterator::find: the metadata comparison itself, for ALL node pairs
+    Unit(name="is_parent_predicate", file=PA, kind="block", within="fn is_parent(&mut self, node: &Node, name: &OsStr) -> ParentResult<&Node>",
+         anchor="let p_meta = &p_node.meta;", block_end="})\n            .map_or(ParentResult::NotMatched",
+         block_sig="fn is_parent_predicate(p_node: &Node, node: &Node, ignore_ctime: bool, ignore_inode: bool) -> (r: bool)",
+         block_tail="",
+         functions=["archiver::parent::Parent::is_parent (body of the closure given to Iterator::find: the metadata comparison)"],
+         rewrites=[
+             Rw(r"(?P<a>[\w.]+)\.zip\((?P<b>[\w.]+)\)\.is_none_or\(\|\(x, y\)\| x == y\)", r"vzip_is_none_or_eq(\g<a>, \g<b>)", regex=True,
+                why="Option::zip + Option::is_none_or with the closure literal |(x, y)| x == y -> its definition (proved helper)"),
+         ],
+         contract="""
+    ensures
+        /*@reuse_requires_unchanged_type_size_mtime_ctime*/ r ==> unchanged_by_statement(*p_node, *node, ignore_ctime),
+        // strongest postcondition: exactly the implemented rule (the inode clause only ever restricts reuse further)
+        /*@is_parent_rule_exact*/ r == (unchanged_by_statement(*p_node, *node, ignore_ctime)
+            && (!ignore_inode || p_node.meta.inode == 0 || node.meta.inode == 0 || p_node.meta.inode == node.meta.inode)),
+"""),
+]
 M = "archiver::parent::verif_kani::"
 KANI = [
     Harness(M + "c11_is_parent_requires_equal_metadata", kind="bounded",
